@@ -38,7 +38,7 @@ Record lb_case := mkLb {
   lb_writers : list (list (N * N));     (* input: per writer goroutine / datagram handle, (length, digest) of its messages in write order *)
   lb_werrs : N;                         (* observed: number of Write calls that returned an error *)
   lb_reads : list lb_read;              (* observed: the peer's successful reads, in order *)
-  lb_rerr : bool;                       (* observed: a Read returned an error (stream cases) *)
+  lb_rerr : bool;                       (* observed: a Read returned an error / did not return while the transports were open *)
   lb_tx : N; lb_rx : N;                 (* observed: writer transport's tx counter, reader transport's rx counter *)
   lb_htx : list N                       (* observed (datagram): TxBytesCounterValue of handle 1, 2, ... *)
 }.
@@ -126,8 +126,9 @@ Definition lb_corr (c : lb_case) : bool :=
   let lens := all_lens (lb_writers c) in
   match lb_k c with
   | LbDgram P =>
-      (* every write succeeds; sequence numbers are not observable here *)
-      (lb_werrs c =? 0)
+      (* every write succeeds, no read fails while the transports are open; sequence numbers
+         are not observable here *)
+      (lb_werrs c =? 0) && negb (lb_rerr c)
       && (if lb_comp c then true else lb_tx c =? dgram_bytes P lens)
       && list_beq N N.eqb (lb_htx c) (map (fun ms => sumN (map fst ms) mod two64) (tl (lb_writers c)))
   | k =>
@@ -150,7 +151,7 @@ Definition lb_ok (c : lb_case) : bool :=
   match lb_k c with
   | LbDgram P =>
       (* every message handed up is a written message (exactly: never partial, never mixed) ... *)
-      forallb (read_wf writers) (lb_reads c)
+      negb (lb_rerr c) && forallb (read_wf writers) (lb_reads c)
       (* ... and each written message at most once (loss is allowed) *)
       && nodup_pairs (concat (map (fun r => match rd_att r with Some x => [x] | None => [] end) (lb_reads c)))
       (* counters: the peer cannot have received more datagram bytes than were sent; a handle
